@@ -97,6 +97,8 @@ def _as_pyint(x):
 def b_int(E, x=0):
     from ..tensor import Tensor
 
+    if isinstance(x, C.Anything):
+        return x
     if isinstance(x, bool):
         return int(x)
     if isinstance(x, int):
@@ -128,6 +130,8 @@ def b_int(E, x=0):
 def b_float(E, x=0):
     from ..tensor import Tensor
 
+    if isinstance(x, C.Anything):
+        return x
     if isinstance(x, (int, Fraction)):
         return Fraction(x)
     if isinstance(x, str):
